@@ -3,10 +3,12 @@
 package vlib
 
 import (
+	"bytes"
 	"encoding/json"
 	"flag"
 	"fmt"
 	"os"
+	"os/exec"
 	"path/filepath"
 	"regexp"
 	"runtime"
@@ -409,3 +411,180 @@ func F(x float64) string { return strconv.FormatFloat(x, 'g', -1, 64) }
 
 // Join is strings.Join for convenience in checks.
 func Join(s []string, sep string) string { return strings.Join(s, sep) }
+
+// ---------------------------------------------------------------------------------------------
+// process-level sharding (the controlled scheduler is one per process)
+
+// Viol is a violation reported by a worker.
+type Viol struct {
+	Key    string `json:"key"`
+	What   string `json:"what"`
+	Replay any    `json:"replay"`
+}
+
+// Job collects what one job of a sharded run observed.
+type Job struct {
+	ID          int              `json:"job"`
+	States      int64            `json:"states"`
+	Transitions int64            `json:"transitions"`
+	Viols       []Viol           `json:"viols,omitempty"`
+	Counters    map[string]int64 `json:"counters,omitempty"`
+	Notes       []string         `json:"notes,omitempty"`
+	HarnessErrs []string         `json:"harness_errors,omitempty"`
+	Capped      bool             `json:"capped,omitempty"`
+	Samples     []any            `json:"samples,omitempty"`
+	seen        map[string]bool
+}
+
+// Violation records a counterexample (first per key only).
+func (j *Job) Violation(key, what string, replay any) {
+	if j.seen == nil {
+		j.seen = map[string]bool{}
+	}
+	j.Count("violation:"+key, 1)
+	if j.seen[key] {
+		return
+	}
+	j.seen[key] = true
+	j.Viols = append(j.Viols, Viol{key, what, replay})
+}
+
+// Count adds n to a named counter.
+func (j *Job) Count(name string, n int64) {
+	if j.Counters == nil {
+		j.Counters = map[string]int64{}
+	}
+	j.Counters[name] += n
+}
+
+// Max keeps the maximum of a named gauge.
+func (j *Job) Max(name string, n int64) {
+	if j.Counters == nil {
+		j.Counters = map[string]int64{}
+	}
+	if n > j.Counters["max:"+name] {
+		j.Counters["max:"+name] = n
+	}
+}
+
+// HarnessError records a reason not to trust the run.
+func (j *Job) HarnessError(format string, a ...any) {
+	j.HarnessErrs = append(j.HarnessErrs, fmt.Sprintf(format, a...))
+}
+
+// Merged is the union of all job results.
+type Merged struct {
+	States, Transitions int64
+	Counters            map[string]int64
+	Samples             []any
+}
+
+// RunSharded runs f for jobs 0..n-1 distributed over worker subprocesses (re-executions of this
+// binary with VERIF_WORKER=i/k).  In a worker process it never returns.
+func (c *Ctx) RunSharded(n int, f func(i int, j *Job)) *Merged {
+	if w := os.Getenv("VERIF_WORKER"); w != "" {
+		var i, k int
+		fmt.Sscanf(w, "%d/%d", &i, &k)
+		enc := json.NewEncoder(Out)
+		for job := i; job < n; job += k {
+			j := &Job{ID: job}
+			if c.Expired() {
+				j.Capped = true
+			} else {
+				f(job, j)
+			}
+			if c.Capped() {
+				j.Capped = true
+			}
+			if err := enc.Encode(j); err != nil {
+				os.Exit(3)
+			}
+		}
+		os.Exit(0)
+	}
+	k := runtime.NumCPU()
+	if v := os.Getenv("VERIF_WORKERS"); v != "" {
+		if x, err := strconv.Atoi(v); err == nil && x > 0 {
+			k = x
+		}
+	}
+	if k > n {
+		k = n
+	}
+	m := &Merged{Counters: map[string]int64{}}
+	var mu sync.Mutex
+	var wg sync.WaitGroup
+	doneJobs := map[int]bool{}
+	for i := 0; i < k; i++ {
+		wg.Add(1)
+		go func(i int) {
+			defer wg.Done()
+			cmd := exec.Command(os.Args[0], os.Args[1:]...)
+			cmd.Env = append(os.Environ(), fmt.Sprintf("VERIF_WORKER=%d/%d", i, k), fmt.Sprintf("VERIF_DEADLINE_S=%d", int(time.Until(c.deadline).Seconds())))
+			var stderr bytes.Buffer
+			cmd.Stderr = &stderr
+			pipe, err := cmd.StdoutPipe()
+			if err != nil {
+				c.HarnessError("worker %d: %v", i, err)
+				return
+			}
+			if err := cmd.Start(); err != nil {
+				c.HarnessError("worker %d: %v", i, err)
+				return
+			}
+			dec := json.NewDecoder(pipe)
+			for {
+				var j Job
+				if err := dec.Decode(&j); err != nil {
+					break
+				}
+				mu.Lock()
+				doneJobs[j.ID] = true
+				m.States += j.States
+				m.Transitions += j.Transitions
+				for kk, v := range j.Counters {
+					if strings.HasPrefix(kk, "max:") {
+						if v > m.Counters[kk] {
+							m.Counters[kk] = v
+						}
+					} else {
+						m.Counters[kk] += v
+					}
+				}
+				if len(m.Samples) < 12 {
+					m.Samples = append(m.Samples, j.Samples...)
+				}
+				mu.Unlock()
+				for _, v := range j.Viols {
+					c.Violation(v.Key, v.What, v.Replay)
+				}
+				for _, e := range j.HarnessErrs {
+					c.HarnessError("%s", e)
+				}
+				for _, nn := range j.Notes {
+					c.Note("%s", nn)
+				}
+				if j.Capped {
+					c.capped.Store(true)
+				}
+			}
+			if err := cmd.Wait(); err != nil {
+				tail := stderr.String()
+				if len(tail) > 1500 {
+					tail = tail[:1500]
+				}
+				c.HarnessError("worker %d failed: %v: %s", i, err, tail)
+			}
+		}(i)
+	}
+	wg.Wait()
+	if !c.Capped() {
+		for job := 0; job < n; job++ {
+			if !doneJobs[job] {
+				c.HarnessError("job %d produced no result", job)
+				break
+			}
+		}
+	}
+	return m
+}
